@@ -5,6 +5,8 @@ See DESIGN.md section 4.
 
 Trace ops:  ('add', bib) ('bar', 'H.HH') ('o'|'x'|'-'|'r', bib)
             ('crash_log',) ('crash_card',) ('resched', kind, seed)
+            ('co', <op>...) a call on ANOTHER competition object of the same process (the pole vault at the
+            same meeting), ('co_new',) that other competition is replaced by a fresh one
 """
 import os, sys, re, time, json, copy, random, hashlib
 from decimal import Decimal
@@ -96,6 +98,39 @@ class Executor(object):
         self.states_seen = set()
         self.terminal_seen = False
         self.tb_levels = set()
+        self.co = None              # the other competition of the meeting (isolation between instances)
+
+    # ---- the other competition ---------------------------------------------------------------
+    def co_step(self, op):
+        """A call on another competition object living in the same process.  Nothing about *this*
+        competition (nor about the replicas recovered from its log) may change."""
+        c = self.c
+        if op[0] == 'co_new' or self.co is None:
+            self.co = self.HJ()
+            if op[0] == 'co_new':
+                self._ev('co_new')
+                return None
+        before = snapshot(c)
+        sh_before = [snapshot(r) for r in self.shadows]
+        try:
+            do(self.co, tuple(op[1:]))
+            res = 'accepted'
+        except self.RV:
+            res = 'refused'
+        except Exception as e:
+            res = 'raised:%s' % type(e).__name__
+        self._ev('co', tuple(op[1:]), res)
+        self.st.inc('fault:call-on-another-competition-of-the-same-process')
+        after = snapshot(c)
+        if after != before:
+            raise Violation('call-on-another-competition-changed-this-one:' + '+'.join(snap_diff(before, after)),
+                            {'op': op, 'changed': snap_diff(before, after), 'before': repr(before)[:600],
+                             'after': repr(after)[:600]})
+        for r, b in zip(self.shadows, sh_before):
+            if snapshot(r) != b:
+                raise Violation('call-on-another-competition-changed-a-recovered-replica', {'op': op})
+        self.hist_flags.add('co')
+        return None
 
     # ---- helpers -------------------------------------------------------------------------
     def _ev(self, *parts):
@@ -126,6 +161,8 @@ class Executor(object):
             self.trace.append(op); return self.crash_card()
         if k == 'resched':
             self.trace.append(op); return self.resched(op[1], op[2])
+        if k in ('co', 'co_new'):
+            self.trace.append(op); return self.co_step(op)
         if not self.known(op):
             return None             # (only while minimising: the add was dropped)
         self.trace.append(op)
@@ -604,8 +641,13 @@ def fmt(h):
 
 
 class Director(object):
-    def __init__(self, rng, check, tier_):
+    def __init__(self, rng, check, tier_, aux_seed=0):
         self.rng = rng
+        # a second stream for the disturbances added later (calls on another competition of the same
+        # process): the main stream, hence the histories of the competition under test, stay what they were
+        self.aux = random.Random((aux_seed << 1) | 1)
+        self.p_co = self.aux.choice([0.0, 0.0, 0.0, 0.08, 0.25])
+        self.co_bibs = []; self.co_h = None; self.co_n = 0
         self.check = check
         thorough = tier_ == 'thorough'
         r = rng
@@ -635,7 +677,7 @@ class Director(object):
         self.maxops = 250 if thorough else 140
         self.bibs = BIBS[:self.n]
         self.config = {k: (str(v) if isinstance(v, Decimal) else v) for k, v in self.__dict__.items()
-                       if k not in ('rng', 'skill', 'bibs')}
+                       if k not in ('rng', 'skill', 'bibs', 'aux', 'co_bibs', 'co_h', 'co_n')}
 
     # ---- scripts -------------------------------------------------------------------------
     def regular_cell(self, i, skill):
@@ -733,9 +775,33 @@ class Director(object):
 
     def step(self, ex, op, hot=False):
         res = ex.step(op)
-        if len(ex.trace) >= self.maxops:
+        if self.p_co and self.aux.random() < self.p_co:
+            for _ in range(self.aux.randint(1, 3)):
+                ex.step(self.co_op())
+                self.co_n += 1
+        if len(ex.trace) - self.co_n >= self.maxops:
             raise Stop('op budget')
         return res
+
+    def co_op(self):
+        """The next call on the other competition of the meeting: same bibs, same heights - whatever the two
+        objects share by accident (class attributes, module-level memos keyed by bib or height) collides."""
+        a = self.aux
+        x = a.random()
+        if x < 0.03:
+            self.co_bibs = []; self.co_h = None
+            return ('co_new',)
+        if self.co_h is None:
+            if len(self.co_bibs) < 2 or (len(self.co_bibs) < 4 and x < 0.5):
+                b = a.choice([b for b in BIBS if b not in self.co_bibs])
+                self.co_bibs.append(b)
+                return ('co', 'add', b)
+            self.co_h = self.start
+            return ('co', 'bar', fmt(self.co_h))
+        if x < 0.2:
+            self.co_h = self.co_h + self.inc * a.choice([1, 1, 2, -1, 0])
+            return ('co', 'bar', fmt(self.co_h))
+        return ('co', a.choice(['o', 'o', 'x', 'x', 'x', '-', 'r']), a.choice(self.co_bibs))
 
     def run_competition(self, ex):
         r = self.rng
@@ -860,7 +926,7 @@ class Director(object):
         for b in self.bibs[:n0]:
             self.step(ex, ('add', b))
         height = self.start
-        length = r.randint(5, self.maxops - 10)
+        length = r.randint(5, max(5, self.maxops - 10))
         wt = r.choice([(0.3, 0.45, 0.15, 0.1), (0.2, 0.65, 0.1, 0.05), (0.45, 0.35, 0.1, 0.1), (0.25, 0.25, 0.25, 0.25)])
         p_bar = r.choice([0.1, 0.2, 0.35])
         after_end = r.choice([1, 3, 6])
@@ -926,9 +992,89 @@ def run_ops(athlib, check, ops):
     return None, ex
 
 
-def one_run(athlib, check, tier_, seed, stats):
+ENUM_EVERY = {'quick': {'C02': 256, 'C08': 160}, 'thorough': {'C02': 128, 'C08': 128}}
+ENUM_DEPTH = {'C02': 2, 'C08': 1}
+
+
+def enum_alphabet(ex, d):
+    """Every call of C02's alphabet at the state reached: 4 marks x every athlete, the bar higher / equal /
+    lower / at zero, one more athlete."""
+    m = ex.m
+    ops = [(k, b) for b in m.ath for k in TRIALS]
+    if m.heights:
+        last = m.heights[-1]
+        hs = [last + d.inc, last, last - d.inc, Decimal('0.00')]
+    else:
+        hs = [d.start, Decimal('0.00')]
+    ops += [('bar', fmt(h)) for h in hs]
+    nb = [b for b in BIBS if b not in m.ath]
+    if nb:
+        ops.append(('add', nb[0]))
+    return ops
+
+
+def enum_run(athlib, check, tier_, seed, stats):
+    """Systematic part (C02: 'exhaustively to a depth bound, and by long random walks beyond it'): a seeded
+    history is cut at a seeded point, and from the state reached EVERY sequence of ENUM_DEPTH calls over the
+    whole alphabet is tried, each on a fresh object that re-executes the prefix (so a reported trace is
+    self-contained).  C08 follows every single call with a recovery from the log, from the card, and every
+    interleaving of the current height."""
+    import itertools
     rng = random.Random(seed)
-    d = Director(rng, check, tier_)
+    d = Director(rng, check, tier_, aux_seed=seed)
+    d.p_co = 0.0
+    d.crash = 0.0
+    d.maxops = d.aux.choice([1, 2, 3, 5, 8, 12, 16, 20, 25, 30, 40])
+    ex = Executor(athlib, check, stats)
+    stats.inc('enum:bases')
+    stats.inc('mode:enumerated-continuations')
+    try:
+        d.run(ex)
+    except Violation as v:
+        stats.inc('end:violation')
+        return v, ex, d
+    except Abandon:
+        stats.inc('end:abandoned-model-lost-track')
+        return None, ex, d
+    except Stop as s_:
+        if 'op budget' not in str(s_):
+            stats.inc('end:stopped:' + str(s_).split(' (')[0][:40])
+            return None, ex, d
+    base = [op for op in ex.trace if op[0] not in ('crash_log', 'crash_card', 'resched')]
+    alpha = enum_alphabet(ex, d)
+    depth = ENUM_DEPTH[check]
+    for suffix in itertools.product(alpha, repeat=depth):
+        ex2 = Executor(athlib, check, stats)
+        try:
+            for op in base:
+                ex2.step(op)
+            for op in suffix:
+                ex2.step(op)
+            if check == 'C08':
+                ex2.step(('crash_log',)); ex2.step(('crash_card',)); ex2.step(('resched', 'last_all', 0))
+        except Violation as v:
+            stats.inc('end:violation')
+            return v, ex2, d
+        except (Stop, Abandon):
+            pass
+        stats.inc('enum:continuations')
+        stats.inc('ops', len(ex2.trace))
+        ex._ev('enum', ex2.digest())
+        ex.hist_flags |= ex2.hist_flags
+        ex.states_seen |= ex2.states_seen
+    stats.inc('end:completed')
+    return None, ex, d
+
+
+def one_run(athlib, check, tier_, seed, stats, idx=None):
+    every = ENUM_EVERY.get(tier_, {}).get(check)
+    # (the residue rotates with the block number, so that the enumerating runs are spread over all workers)
+    if every and idx is not None and idx % every == (idx // every * 7 + 3) % every:
+        v, ex, d = enum_run(athlib, check, tier_, seed, stats)
+        stats.inc('ops', len(ex.trace))
+        return v, ex, d
+    rng = random.Random(seed)
+    d = Director(rng, check, tier_, aux_seed=seed)
     ex = Executor(athlib, check, stats)
     viol = None
     try:
@@ -946,6 +1092,56 @@ def one_run(athlib, check, tier_, seed, stats):
     return viol, ex, d
 
 
+def run_sequence(athlib, check, tier_, master, indices):
+    """Runs the given run indices one after the other in this process; the violation (or None) of the last."""
+    v = None
+    for i in indices:
+        v, ex, d = one_run(athlib, check, tier_, common.run_seed(check, master, i), Counter(), i)
+    return v
+
+
+def context_replay(check, tier_, master, indices, cls):
+    """Shortest tail of `indices` (runs a worker executed, the last one violating) that reproduces the
+    violation class in a FRESH interpreter; None if not even the whole sequence does."""
+    import subprocess
+    tails = []
+    k = 1
+    while k < len(indices):
+        tails.append(indices[-(k + 1):]); k *= 4
+    tails.append(indices)
+    for tail in tails:
+        p = subprocess.run([sys.executable, os.path.join(common.VERIF_DIR, 'run_check.py'), '--hj-sequence', check, tier_,
+                            str(master), ','.join(map(str, tail))], capture_output=True, text=True, timeout=3600)
+        last = p.stdout.strip().splitlines()[-1] if p.stdout.strip() else ''
+        if p.returncode == 0 and last == 'SEQUENCE-VIOLATION ' + cls:
+            return tail
+    return None
+
+
+def fresh_confirms(check, ops, cls):
+    """Does this explicit trace show the violation class in a fresh interpreter (where nothing ran before)?"""
+    import subprocess
+    p = subprocess.run([sys.executable, os.path.join(common.VERIF_DIR, 'run_check.py'), '--hj-ops', check],
+                       input=json.dumps([list(o) for o in ops]), capture_output=True, text=True, timeout=600)
+    last = p.stdout.strip().splitlines()[-1] if p.stdout.strip() else ''
+    return p.returncode == 0 and last == 'OPS-VIOLATION ' + cls
+
+
+def ops_main(check):
+    athlib = common.import_athlib()
+    ops = [tuple(o) for o in json.loads(sys.stdin.read())]
+    v, ex = run_ops(athlib, check, ops)
+    print('OPS-VIOLATION ' + v.cls if v is not None else 'OPS-CLEAN')
+    return 0
+
+
+def sequence_main(check, tier_, master, indices):
+    athlib = common.import_athlib()
+    v = run_sequence(athlib, check, tier_, master, indices)
+    print('SEQUENCE-VIOLATION ' + v.cls if v is not None else 'SEQUENCE-CLEAN')
+    return 0
+
+
 def minimise(athlib, check, ops, cls):
     def fails(sub):
         v, _ = run_ops(athlib, check, sub)
@@ -953,9 +1149,13 @@ def minimise(athlib, check, ops, cls):
     ops = [tuple(o) for o in ops]
     small = common.ddmin(ops, fails, max_tests=600)
     v, ex = run_ops(athlib, check, small)
-    if v is None or v.cls != cls:      # cannot happen with a deterministic subject; be safe
+    if v is None or v.cls != cls:
+        # a subject whose behaviour depends on more than its call history (object addresses, what ran
+        # before in the process): fall back to the unshrunk trace, and if even that fails now, say so
         small = ops
         v, ex = run_ops(athlib, check, small)
+        if v is None or v.cls != cls:
+            return None
     return small, v, ex
 
 
@@ -1005,7 +1205,7 @@ def worker_fn(check, tier_, master, n_runs, budget_s=None):
                 st.inc('runs_not_started_budget', len(range(i, n_runs, nw)))
                 break
             seed = common.run_seed(check, master, i)
-            v, ex, d = one_run(athlib, check, tier_, seed, st)
+            v, ex, d = one_run(athlib, check, tier_, seed, st, i)
             rd[0] = (rd[0] + common.run_digest_term(i, [ex.digest(), v.cls if v else None])) & ((1 << 64) - 1)
             st.inc('runs')
             if check == 'C03':
@@ -1022,7 +1222,28 @@ def worker_fn(check, tier_, master, n_runs, budget_s=None):
             if ex.terminal_seen:
                 st.inc('reached-finished-or-drawn')
             if v is not None and v.cls not in viols and len(viols) < 6:
-                ops, mv, mex = minimise(athlib, check, ex.trace, v.cls)
+                v0, ex0 = run_ops(athlib, check, ex.trace)
+                mini = minimise(athlib, check, ex.trace, v.cls) if (v0 is not None and v0.cls == v.cls) else None
+                if mini is not None and not fresh_confirms(check, mini[0], v.cls):
+                    # reproduced here, but this process has run thousands of competitions before: not in a fresh one
+                    mini = (list(ex.trace), v0, ex0) if fresh_confirms(check, ex.trace, v.cls) else None
+                if mini is None:
+                    # the run's own call history does not reproduce it on fresh objects: the competition's
+                    # behaviour depended on the competitions this process ran before it
+                    allruns = list(range(wi, i + 1, nw))
+                    ctx = context_replay(check, tier_, master, allruns, v.cls)
+                    # (not even the worker's whole sequence reproduces it in a fresh interpreter: the subject
+                    # depends on something outside every seam - object addresses, say.  The oracle judged a
+                    # history that really happened, so it is still reported, marked as observed once.)
+                    cls2 = ('depends-on-earlier-competitions:' if ctx else 'observed-once-not-replayable:') + v.cls
+                    if ctx is None:
+                        st.inc('violations-observed-but-not-replayable')
+                    viols[cls2] = {'class': cls2, 'detail': dict(v.detail, context_runs=ctx or allruns, replayable=bool(ctx)),
+                                   'trace': [list(o) for o in ex.trace],
+                                   'run_index': i, 'run_seed': seed, 'digest': ex.digest(), 'config': d.config,
+                                   'minimised_from': len(ex.trace), 'run_sequence': ctx or allruns, 'tier': tier_}
+                    continue
+                ops, mv, mex = mini
                 viols[v.cls] = {'class': v.cls, 'detail': mv.detail, 'trace': ops, 'run_index': i, 'run_seed': seed,
                                 'digest': mex.digest(), 'config': d.config, 'minimised_from': len(ex.trace)}
             elif v is None and len(samples) < 2 and nontrivial(check, ex) and len(ex.trace) < 40:
@@ -1040,7 +1261,7 @@ def det_fingerprints(prop, master, idxs, k=None):
     out = {}
     for i in idxs:
         st = Counter()
-        v, ex, d = one_run(athlib, prop, 'quick', common.run_seed(prop, master, i), st)
+        v, ex, d = one_run(athlib, prop, 'quick', common.run_seed(prop, master, i), st, i)
         out[str(i)] = common.digest_of([ex.digest(), [list(o) for o in ex.trace], v.cls if v else None, sorted(st.items())])
     return out
 
@@ -1092,6 +1313,16 @@ def main(check, tier_):
     known = common.load_known_findings().get(check, {})
     vlines = []; klines = []
     for cls, v in sorted(viols.items()):
+        if v.get('run_sequence'):
+            name = re.sub(r'[^A-Za-z0-9_.-]+', '_', cls)[:80] + '-s%d' % master
+            path = common.write_replay(check, name, {
+                'engine': 'hjsim', 'kind': 'run-sequence', 'master_seed': master, 'tier': v['tier'],
+                'indices': v['run_sequence'], 'run_index': v['run_index'], 'run_seed': v['run_seed'],
+                'athlib_tree_digest': digest, 'scenario': v['config'], 'trace': v['trace'],
+                'violation': {'class': cls, 'detail': v['detail']}, 'event_digest': v['digest'],
+                'minimised_from': {'runs_of_the_worker': len(range(v['run_index'] % nw, v['run_index'] + 1, nw))}})
+            vlines.append('VIOLATION property=%s replay=%s' % (check, path))
+            continue
         sig = match_known(check, v, known)
         if sig:
             klines.append('KNOWN-FINDING: property=%s sig=%s %s' % (check, sig, known[sig]))
@@ -1127,6 +1358,10 @@ def main(check, tier_):
                    'jumpoff-entered-with-retired-co-leader', 'jumpoff-illformed-followed-unchecked',
                    'resched-identical-skipped', 'reached-finished-or-drawn')},
         'tiebreak_levels_decisive': dict(tbl),
+        'enumerated_continuations': {'bases (seeded history cut at a seeded point)': st.get('enum:bases', 0),
+                                     'continuations (every call sequence of the depth below over the whole alphabet, each on a fresh object)': st.get('enum:continuations', 0),
+                                     'depth': ENUM_DEPTH.get(check, 0),
+                                     'every_nth_run': ENUM_EVERY.get(tier_, {}).get(check, 0)},
         'run_endings': {k[4:]: v for k, v in st.items() if k.startswith('end:')},
         'modes': {k[5:]: v for k, v in st.items() if k.startswith('mode:')},
         'violation_classes': sorted(viols),
@@ -1150,6 +1385,11 @@ def main(check, tier_):
         print(l)
     print('%s: runs=%d distinct=%d nontrivial=%d states=%d endings=%s classes=%s det=%s wall=%.1fs' %
           (check, runs, len(hists), len(nt), len(states), coverage['run_endings'], sorted(viols), det, wall))
+    if det['diverged'] and vlines:
+        # the harness replays the same seeds differently *because the subject depends on more than its call
+        # history* (that is what the violations above say): reported, not a harness error
+        print('NOTE determinism self-test diverged on this tree (%s) - consistent with the violations reported' % det)
+        return 1
     if det['diverged']:
         print('HARNESS-ERROR determinism self-test diverged: %s' % det)
         return 2
@@ -1180,8 +1420,20 @@ def match_known(check, v, known):
 
 def replay(path):
     rp = common.load_replay(path)
-    athlib = common.import_athlib()
     check = rp['property']
+    if rp.get('kind') == 'run-sequence':
+        # a violation that needs the competitions run before it in the same process: re-run that sequence,
+        # in the same kind of fresh interpreter the search used to confirm it
+        want = rp['violation']['class'].split(':', 1)[-1]
+        ok = context_replay(check, rp['tier'], rp['master_seed'], rp['indices'], want)
+        print('replay: %d runs in sequence in a fresh interpreter: %s' % (len(rp['indices']), 'reproduced' if ok else 'clean'))
+        if not ok:
+            print('replay: no violation reproduced (recorded class %s)' % rp['violation']['class'])
+            return 0
+        print('replay: recorded detail %s' % json.dumps(rp['violation']['detail'], default=str)[:1500])
+        print('VIOLATION property=%s replay=%s' % (check, path))
+        return 1
+    athlib = common.import_athlib()
     v, ex = run_ops(athlib, check, [tuple(o) for o in rp['trace']])
     print('replay: %d ops, final state %s, card %s' % (len(ex.trace), ex.c.state,
                                                        ex.c.to_matrix() if ex.c.jumpers else []))
